@@ -1,5 +1,6 @@
 import LitexModel.Wishbone.SramNum
 import LitexModel.Wishbone.ToCsrBank
+import LitexModel.Wishbone.AddrGlue
 open Litex Litex.Driver Litex.WbMem
 
 /-
@@ -75,7 +76,9 @@ def openMachine (args : List String) (hin hout : IO.FS.Stream) : Option (IO Bool
   | name :: ps => (parseNats ps).bind fun p => openNums name p hin hout
   | _ => none
 
-/-- Pure calls: `remap_adr <remap params> ; <adr>` is not needed (covered by machines). -/
-def call (_ : List String) : Option String := none
+/-- Pure calls: `glue_subaddrs <nbs> <cbits> <sh> <a>` (add_adapter: Converter + word->byte addressing). -/
+def call : List String → Option String
+  | "glue_subaddrs" :: ps => (parseNats ps).bind callGlueSubAddrs
+  | _ => none
 
 def main : IO Unit := mainLoop openMachine call
